@@ -42,3 +42,8 @@ def run(c, replay):
         if res.final != pr["seqstop"].final:
             c.violation("state-after-rollback-differs", dict(kind="property", program=pr["text"], config=C.describe(run_), rollbacks=nrb, silent=nsil, script=run_.get("script")), True)
     c.cov.update(lp_level_runs=okr, rollbacks_observed=rb, silent_reexecutions_observed=sil, rollbacks_between_checkpoints=deep)
+    # ---- the random stream through the library distributions (Normal, Gamma, ...) is part of the restored state as well
+    ncmp, nrbl, bad = C.lp_libm_campaign(c, ctx, r, 8 if c.tier == "quick" else 120)
+    if bad:
+        c.violation("state-after-rollback-differs:libm-draws", bad, True)
+    c.cov.update(libm_lp_level_runs_compared=ncmp, libm_lp_level_rollbacks=nrbl)
